@@ -27,6 +27,10 @@ CLAIMED = {
    "TLA+ model of repository + push (spec/Repo.tla, spec/Push.tla) checked exhaustively by TLC (RemoteComplete, RefsOnlyAfterObjects); per-edge behaviours ending in a push replayed with real git + git-lfs + fake LFS server; observed verdict/server/refs compared with the spec's prediction",
    "TLC explores every history of <=3 commits / <=6 steps (quick; thorough <=5 commits, 3 objects) over 2 branches, 2 paths, raw/pointer/deleted blobs, local damage (absent, same-size corrupt), stale remote-tracking refs (another clone pushed) and the three push front-ends, and checks that whatever becomes reachable on the remote has its objects on the server. One behaviour per push edge is emitted; a stratified sample plus random walks over the larger configuration are replayed against the real binary: push verdict, server contents (hash-validated), remote refs and the RemoteComplete invariant are compared after every push.",
    "Trusted: real git 2.39 as transport for refs (bare remote over a file path), the fake LFS server (rejects uploads that do not hash to their oid), skip-smudge work trees. --object-id, lfs.allowincompletepush, tags and file:// standalone transfer are not yet in the model.", "DESIGN.md §5 C03"),
+ "C05": ("model_checking",
+   "TLA+ model of retention (spec/Prune.tla over Repo/Push: MustRetain from git-lfs-prune(1)) explored by TLC; per-edge behaviours ending in a prune replayed with real git + git-lfs + fake server under varied attribute spellings and ambient git configuration; observed deletions must avoid MustRetain",
+   "TLC explores every history of <=3 commits / <=5 steps (thorough <=4/6) with commit dates 0 or 20 days old, single- and multi-path commits, partial pushes, stale remote-tracking refs, staged files, stashes, branch switches, a server that lost objects, and prune with no flag / --dry-run / --recent / --force / --verify-remote. The acceptor lets prune delete any subset of local minus MustRetain; replayed runs are judged on Deleted /\\ MustRetain = {}, dry-run deletes nothing, --verify-remote deletes nothing reachable the server lacks. Each behaviour is concretised with the default attribute line and git config or with one of 6 other spellings / 10 ambient settings.",
+   "MustRetain uses the conservative reading of 'unpushed' (referenced by an unpushed commit and by no commit the remote has). fetchrecentcommitsdays=0 (default), extra worktrees and detached HEAD not yet modelled; dates far from the window boundary.", "DESIGN.md §5 C05"),
 }
 
 checks = []
@@ -49,7 +53,7 @@ m = {
  "version": 1,
  "setup_cmd": "bin/setup",
  "hooks": {"guard": "verif", "enable": "go build -tags verif (done by bin/check on every invocation, from /repo's working tree)",
-           "baseline_off_cmd": "cd /repo && go build ./... && go test -mod=mod -vet=off -count=1 -timeout 25m ./...",
+           "baseline_off_cmd": "cd /repo && H=$(mktemp -d) && HOME=$H GIT_CONFIG_NOSYSTEM=1 GOPATH=/root/go GOCACHE=/root/.cache/go-build GOMODCACHE=/root/go/pkg/mod GOFLAGS=-mod=mod GOTOOLCHAIN=local go test -vet=off -count=1 -timeout 25m ./...; rc=$?; rm -rf $H; exit $rc",
            "source_commits": [l.strip() for l in open(os.path.join(ROOT, "hooks_commits.txt")) if l.strip()],
            "add_only": True},
  "engines": [{"name": "tlc+harness", "path": "/verif/harness", "serves_properties": [c["property_id"] for c in checks],
